@@ -37,6 +37,15 @@ CHECKS = {
    note="Trusted: TLC, Backend.tla, libxcrypt/bcrypt-C/hashlib as independent providers; effective backend observed through the "
         "class's private __backend slot (projection only). Host dependent: argon2 and the 'scrypt' package are absent here.",
    technique="TLA+ spec (Backend.tla) model-checked with TLC + spec-to-implementation replay in fresh processes + digest trace validation"),
+ "C16": dict(cat=MC, design="DESIGN.md §3 C16",
+   text="HtFile.tla models the file object (records, export token list, bound disk file with modification stamps, autosave) and all "
+        "public operations incl. external rewrites and failed loads; TLC checks over all histories within the bound that the export parses "
+        "back to exactly the records, each key once, comments kept in order, untouched records keep their order, failures change nothing; "
+        "random 12-step behaviours are replayed on real HtpasswdFile and HtdigestFile objects (utf-8 and latin-1, text/bytes arguments, "
+        "autosave on/off) and after every step the exported text and the disk file are parsed by an independent reader and compared with the spec state.",
+   note="Trusted: TLC, HtFile.tla, libxcrypt md5/des crypt and hashlib.md5 as independent verifiers of stored hashes. Blank lines are not "
+        "compared; the position of a re-added user is left to the library. Model alphabet: 3 keys, 2 passwords, 7 initial contents.",
+   technique="TLA+ spec (HtFile.tla) model-checked with TLC + spec-to-implementation behaviour replay with independent read-back"),
 }
 PENDING = {}
 props = [json.loads(l) for l in open(os.path.join(HERE, "properties.jsonl"))]
